@@ -303,9 +303,18 @@ Ltac cbn_st :=
        in_cs pre_done post_done late_direct_pc is_ClSet is_ClWaitWatch is_FinNil is_FinEarly is_close is_direct_true
        pc_ok watcher_pc_ok holds implb negb andb orb Bool.eqb] in *.
 
+Ltac rw_atoms :=
+  repeat match goal with
+  | H : ?a = ?b, H' : context [?a] |- _ =>
+      lazymatch b with true => idtac | false => idtac end;
+      lazymatch a with true => fail | false => fail | _ => idtac end;
+      first [ constr_eq H H'; fail 1 | rewrite H in H' ]
+  end.
+
 Ltac bsolve2 :=
   cbn_st; try reflexivity; try assumption; try congruence;
   batoms; cbn_st; use_impl; cbn_st; try reflexivity; try congruence;
+  rw_atoms; cbn_st; use_impl; cbn_st; try reflexivity; try congruence;
   try (exfalso;
        repeat match goal with H : _ /\ _ |- _ => destruct H end;
        first [ congruence | lia ]).
@@ -317,6 +326,7 @@ Proof.
   intros (A1 & A2 & A3 & A4 & A5 & A6) (T & G & B2 & C4) H.
   step_inv H; intros t0 th0 H0; cbn [threads with_threads] in H0; upd_destruct;
     try (apply T; assumption);
+    try (exact (T _ _ Hth));
     try pose proof (T _ _ Hth) as Tt;
     try pose proof (A3 _ _ Hth) as O3; try pose proof (A4 _ _ Hth) as O4; try pose proof (A2 _ _ Hth) as O2;
     try match goal with
